@@ -25,8 +25,11 @@ vars == <<l, bytes, cands, bad>>
 Huge == -3   \* logged offsets beyond 2^30
 
 \* the logged call in the vocabulary of Decoder!Succ
+\* (a words(n) request with an astronomically large n -- logged as a negative marker -- behaves
+\*  like a request for one word more than the buffer can ever supply)
 SpecCall(c) ==
   IF c[1] \in {"id", "bit32", "ext_inst_integer"} THEN <<"word">>
+  ELSE IF c[1] = "words" /\ c[2] < 0 THEN <<"words", (Len(bytes) \div 4) + 1>>
   ELSE IF c[1] = "set_limit" /\ c[2] < 0 THEN <<"set_limit", 100000>>   \* usize::MAX-ish: beyond any buffer
   ELSE c
 
